@@ -2,6 +2,8 @@
 package rules
 
 import (
+	"strings"
+
 	"nechk/core"
 
 	"golang.org/x/tools/go/ssa"
@@ -12,6 +14,8 @@ type Ctx struct {
 	P    *core.Prog
 	R    *core.Report
 	Tier string
+	// Anchors collects the functions the rule set resolved through need.
+	Anchors []*ssa.Function
 }
 
 // RuleSet evaluates all rules of one property.
@@ -33,5 +37,37 @@ func (c *Ctx) need(rule, rel, name string) *ssa.Function {
 		return nil
 	}
 	c.R.Fn(core.FuncName(fn))
+	c.Anchors = append(c.Anchors, fn)
 	return fn
+}
+
+// NoSharedState is evaluated after every rule set: the functions the property
+// is anchored in, and everything they reach in the module, keep no state in
+// package-level variables. Each property quantifies over histories in which
+// the outcome is a function of the request, the options and storage; a
+// process-global cache, memo or counter is a second store that the rules of
+// the property do not see (a value read from it is not the stored record the
+// guards were checked against), so its presence leaves the property undecided.
+func NoSharedState(c *Ctx, prop string) {
+	rule := "R-" + prop + ".G"
+	c.R.Rule(rule, "no package-level mutable state (assigned variable, sync.Map/mutex-guarded map, container updated in place) is reachable in the module call graph from the functions this property is anchored in: outcomes depend only on the request, the options and storage")
+	// every function the rule set analysed counts as an anchor
+	roots := append([]*ssa.Function{}, c.Anchors...)
+	for _, fn := range c.P.ModuleFuncs() {
+		if c.R.Functions[core.FuncName(fn)] {
+			roots = append(roots, fn)
+		}
+	}
+	if len(roots) == 0 {
+		return
+	}
+	cg := core.BuildCallGraph(c.P)
+	found := core.SharedStateReachable(c.P, cg, roots)
+	if len(found) == 0 {
+		c.R.OK(rule, "package-level state reachable from the anchors", "", "none: only error sentinels and interface assertions are declared at package level")
+		return
+	}
+	for _, f := range found {
+		c.R.Unk(rule, "package-level state "+f[:strings.Index(f, " (")], "", "process-global mutable state reachable from the property's functions: "+f+"; what it caches or counts is not governed by any rule of this property (stale authority, cross-connection leakage)")
+	}
 }
